@@ -372,3 +372,81 @@ func c33PoisonedCache(thorough bool) *explore.Scenario {
 		},
 	}
 }
+
+// c33CookieSweep — the server chooses the LENGTH of the client's second ClientHello through the
+// cookie it asks to have echoed: every cookie length 1..320 (the second hello of the older,
+// padded parrots sweeps across the 512-byte padding boundary) and a few large ones.
+func c33CookieSweep() *explore.Scenario {
+	var clients []gridClient
+	for _, n := range AllIDs() {
+		switch n.Name {
+		case "HelloChrome_83", "HelloFirefox_65", "HelloIOS_14", "HelloChrome_100", "HelloSafari_16_0", "HelloChrome_120":
+			clients = append(clients, gridClient{Name: n.Name, ID: n.ID})
+		}
+	}
+	var lens []int
+	for l := 1; l <= 320; l++ {
+		lens = append(lens, l)
+	}
+	lens = append(lens, 1000, 4000, 16000, 65000)
+	return &explore.Scenario{
+		Name:     "hello-retry-request-cookie-length-sweep",
+		Watchdog: 60 * time.Second, HangSig: "C33|hang|cookie-sweep",
+		Run: func(x *explore.X) (r explore.Result) {
+			g := clients[x.Choose("client", len(clients))]
+			l := lens[x.Choose("cookie-length", len(lens))]
+			what := fmt.Sprintf("%s, HelloRetryRequest with a %d-byte cookie", g.Name, l)
+			h0, err := g.probeHello()
+			if err != nil {
+				r.Obs = "no-hello"
+				return
+			}
+			o := offerOf(h0)
+			var grp uint16
+			for _, c := range []uint16{24, 23, 25} {
+				if has16(o.groups, c) && !has16(o.shares, c) {
+					grp = c
+					break
+				}
+			}
+			if grp == 0 || !has16(o.versions, tls.VersionTLS13) {
+				r.Obs = "no-hrr-possible"
+				return
+			}
+			scfg := peer.ServerConfig()
+			if !offersCert(o, "ecdsa") {
+				scfg = peer.ServerConfig(peer.Fix().RSA)
+			}
+			scfg.CurvePreferences = []tls.CurveID{tls.CurveID(grp)}
+			cookie := rep(0xC6, l)
+			hk := &connHooks{AcceptCookie: true}
+			hk.Out = func(n int, t uint8, d []byte) []byte {
+				if t == 2 && isHRR(d) {
+					if sp, ok := parseServerHello(d); ok {
+						sp.exts = append(sp.exts, shExt{44, append([]byte{byte(l >> 8), byte(l)}, cookie...)})
+						return sp.build()
+					}
+				}
+				return d
+			}
+			var cleanup func()
+			hs := peer.Run(g.config("example.com"), g.ID, scfg, peer.Opts{Prepare: g.prepare(), Echo: true,
+				OnConns: func(u *tls.UConn, s *tls.Conn) { cleanup = installHooks(s, hk) }})
+			if cleanup != nil {
+				cleanup()
+			}
+			r.Nontrivial = true
+			r.Class = what
+			if hs.CPanic != "" {
+				r.Violate("C33|client-panic|cookie-sweep|"+errClass(fmt.Errorf("%s", firstLineOf(hs.CPanic))), "%s: %s", what, truncStr(hs.CPanic, 500))
+				return
+			}
+			r.Count("cookie_sweep_returned", 1)
+			if hs.OK() {
+				r.Count("cookie_sweep_completed", 1)
+			}
+			r.Obs = "c=" + errClass(hs.CErr)
+			return
+		},
+	}
+}
